@@ -27,7 +27,7 @@ PROP = {
     }
 
 TEXT = {
-  "level": "Machine-checked Coq theorems (8, all closed under the global context) about an executable Gallina model of data-url/src/mime.rs (parse, split2, parse_parameters with the shared ';'-piece iterator and the quoted-string scanner that continues across pieces, contains, valid_value, only_http_token_code_points on UTF-8 bytes, Display, get_parameter): round trip parse(display(m)) = m for every parse result and for every value in normal form, the normal form itself (non-empty lower-case token type/subtype/names, no duplicate names, values made of quoted-string code points up to their first ';'), panic-freedom and fuel-sufficiency for all strings incl. non-ASCII, get_parameter = list membership - for all inputs, no length bound. IS_HTTP_TOKEN, http_whitespace, valid_value and Display's escape set are regenerated from the Rust source on every run and the table theorems (IS_HTTP_TOKEN = RFC 7230 tchar) re-proved. The model is tied to the code by a correspondence run (WPT corpus, exhaustive small scopes, structured and malformed random) of the extracted model against the crate built from /repo.",
+  "level": "Machine-checked Coq theorems (9, all closed under the global context) about an executable Gallina model of data-url/src/mime.rs (parse, split2, parse_parameters with the shared ';'-piece iterator and the quoted-string scanner that continues across pieces, contains, valid_value, only_http_token_code_points on UTF-8 bytes, Display, get_parameter): round trip parse(display(m)) = m for every parse result and for every value in normal form, the normal form itself (non-empty lower-case token type/subtype/names, no duplicate names, values made of quoted-string code points up to their first ';'), panic-freedom and fuel-sufficiency for all strings incl. non-ASCII, get_parameter = list membership - for all inputs, no length bound. IS_HTTP_TOKEN, http_whitespace, valid_value and Display's escape set are regenerated from the Rust source on every run and the table theorems (IS_HTTP_TOKEN = RFC 7230 tchar) re-proved. The model is tied to the code by a correspondence run (WPT corpus, exhaustive small scopes, structured and malformed random) of the extracted model against the crate built from /repo.",
   "design_ref": "DESIGN.md section 8 C19, Appendix A.6, sections 4 and 6",
   "note": "Trusted: Coq kernel + vm_compute; translator tables_c19.py; extraction (ExtrOcamlBasic only) + OCaml driver; the correspondence generators; std's str/char-pattern methods are modelled at code-point level, not verified. Finding F-C19-1 (duplicate names differing in case) is fixed in /repo (dfe04c2) and replayed on every run; it must not reproduce. No open finding against the C19 text: the round trip holds on the pinned code although valid_value only inspects the raw first ';'-piece of a quoted value. That scope is a deviation from the MIME Sniffing Standard (F-C19-2, recorded in known_findings.d/C19.json for C17: a/b;x=\"a;<U+0001>\" keeps the control character, a/b;x=\"a\"<U+0001> loses x); the model reproduces it and C19_normal states exactly what the code guarantees about values.",
   "technique": "Coq proof over Gallina model + table translator + extracted-model/implementation correspondence",
